@@ -1,17 +1,24 @@
 #!/bin/bash
-# usage: tools/run_seeded.sh <ID> <patch.diff> [tier]  — runs ./check <ID> against a private copy of /repo with the patch applied
-# (used while other work is going on in /repo; the final confirmation applies the patch to /repo itself with git apply)
+# usage: tools/run_seeded.sh <ID> <patch.diff> [tier] [tag]
+# Runs ./check <ID> against a private copy of /repo's working tree with the patch applied, from a private copy of
+# /verif (so generated Lean files, build outputs, evidence and replays of the mutated run never touch /verif).
+# The output of the run is kept as /verif/work/seeded_<tag>.out.  Both copies are removed afterwards.
+# The final confirmation of a seeded change applies the patch to /repo itself (git -C /repo apply; ./check; git checkout).
 set -e
 ID=$1; PATCH=$(realpath $2); TIER=${3:-quick}; TAG=${4:-$ID}
 D=$(mktemp -d /tmp/seedrepo.XXXXXX)
+V=$(mktemp -d /tmp/seedverif.XXXXXX)
+trap 'rm -rf $D $V' EXIT
 cp -r /repo/cola $D/cola
 (cd $D && patch -p1 -s < $PATCH)
-cd /verif
+rsync -a --exclude .git --exclude work --exclude seeded /verif/ $V/
+mkdir -p /verif/work
 set +e
-COLA_SRC_ROOT=$D PYTHONPATH=$D ./check $ID $TIER > /verif/work/seeded_$TAG.out 2>&1
+(cd $V && COLA_SRC_ROOT=$D PYTHONPATH=$D VERIF_SEED=${VERIF_SEED:-0} ./check $ID $TIER) > /verif/work/seeded_$TAG.out 2>&1
 RC=$?
 set -e
+# keep the replays of the mutated run next to the output
+if [ -d $V/work/replays ]; then mkdir -p /verif/work/seeded_replays/$TAG && cp -r $V/work/replays/. /verif/work/seeded_replays/$TAG/ 2>/dev/null || true; fi
 echo "rc=$RC violations=$(grep -c '^VIOLATION' /verif/work/seeded_$TAG.out)"
 grep '^VIOLATION' /verif/work/seeded_$TAG.out | head -3
-rm -rf $D
 exit 0
